@@ -607,3 +607,123 @@ func ruleC06DistinctWiring(c *Ctx) {
 	})
 	c.Check(ok2, "c06.distinct-wiring", c.P.funcKey(bs)+"/distinct", c.P.Pos(bs.Pos()), "query.distinct = slct.Distinct", why2)
 }
+
+func init() { register("C06", ruleC06BranchWith); register("C07", ruleC06BranchWith) }
+
+// ruleC06BranchWith: a union branch keeps its own WITH clause.
+func ruleC06BranchWith(c *Ctx) {
+	c.Doc("c06.branch-with", "union branches: the WITH clause installed on a branch before it is prepared is MergeWith(the union's WITH, the branch's own WITH) — never the union's WITH alone, which erases the branch's own CTEs (its FROM then resolves to nothing and the branch silently contributes no rows); MergeWith returns the other operand when one is nil and otherwise the outer CTEs followed by the branch's own")
+	f, _ := c.unionFunc()
+	if f == nil {
+		c.Unknown("c06.branch-with", "BuildUnion", "-", "anchor lost")
+		return
+	}
+	n := 0
+	var why []string
+	seen := map[*ssa.Function]bool{}
+	var scan func(g *ssa.Function, depth int)
+	scan = func(g *ssa.Function, depth int) {
+		if seen[g] || depth > 2 {
+			return
+		}
+		seen[g] = true
+		allInstrs(g, func(_ *ssa.BasicBlock, in ssa.Instruction) {
+			ci, ok := in.(ssa.CallInstruction)
+			if !ok {
+				return
+			}
+			cc := ci.Common()
+			name := ""
+			if cc.IsInvoke() {
+				name = cc.Method.Name()
+			} else if cal := cc.StaticCallee(); cal != nil {
+				name = cal.Name()
+				if c.P.InModule(cal) && cal.Parent() == nil {
+					scan(cal, depth+1)
+				}
+			}
+			if name != "SetWith" {
+				return
+			}
+			n++
+			arg := cc.Args[len(cc.Args)-1]
+			at := NewTB().Of(arg)
+			a, isMerge := callArgs(at, "MergeWith")
+			if !isMerge || len(a) != 2 {
+				why = append(why, "a branch's WITH is set to "+at.String()+" at "+c.P.Pos(ci.Pos())+": the branch's own CTEs are erased")
+				return
+			}
+			if !(a[0].Op == "param") || !(a[1].Op == "field" && a[1].Name == "With") {
+				why = append(why, "MergeWith is not applied to (the union's WITH, the branch's own WITH): "+at.String())
+			}
+		})
+	}
+	scan(f, 0)
+	if n == 0 {
+		why = append(why, "no SetWith on the branches found")
+	}
+	if mw := c.P.Func(modPath, "MergeWith"); mw == nil {
+		why = append(why, "anchor lost: MergeWith")
+	} else {
+		c.Fn("MergeWith")
+		paths, err := WalkFunc(mw, WalkCfg{MaxVisits: 1})
+		if err != nil {
+			why = append(why, err.Error())
+		}
+		outer, own := mw.Params[0].Name(), mw.Params[1].Name()
+		sawMerged := false
+		for _, p := range paths {
+			if p.Exit != "return" || len(p.Ret) != 1 {
+				continue
+			}
+			outerNil, ownNil := false, false
+			for k, v := range p.Asg {
+				if x, isN := isNilTest(p.KeyTerm[k]); isN && x.Op == "param" && isTrueC(v) {
+					if x.Name == outer {
+						outerNil = true
+					}
+					if x.Name == own {
+						ownNil = true
+					}
+				}
+			}
+			r := p.Ret[0].T
+			switch {
+			case outerNil:
+				if r == nil || r.Op != "param" || r.Name != own {
+					why = append(why, "with no outer WITH, MergeWith does not return the branch's own")
+				}
+			case ownNil:
+				if r == nil || r.Op != "param" || r.Name != outer {
+					why = append(why, "with no own WITH, MergeWith does not return the outer one")
+				}
+			default:
+				if r != nil && r.Op == "param" {
+					// outer == own shortcut
+					continue
+				}
+				sawMerged = true
+				// two appends onto the merged CTE list: outer's then own's
+				var order []string
+				for _, e := range p.Effects {
+					if isAppendOf(e) && len(e.Args) == 2 {
+						s := e.Args[1].String()
+						switch {
+						case strings.Contains(s, "p:"+outer) && strings.Contains(s, "CTEs"):
+							order = append(order, "outer")
+						case strings.Contains(s, "p:"+own) && strings.Contains(s, "CTEs"):
+							order = append(order, "own")
+						}
+					}
+				}
+				if strings.Join(order, ",") != "outer,own" {
+					why = append(why, "the merged clause does not hold the outer CTEs followed by the branch's own (appends: "+strings.Join(order, ",")+")")
+				}
+			}
+		}
+		if !sawMerged {
+			why = append(why, "MergeWith never builds a merged clause")
+		}
+	}
+	c.Check(len(why) == 0, "c06.branch-with", c.P.funcKey(f), c.P.Pos(f.Pos()), fmt.Sprintf("%d SetWith sites install MergeWith(union's, own)", n), strings.Join(uniq(why), "; "))
+}
